@@ -36,6 +36,9 @@ CHECKS = {
  "C19": dict(cat="model_checking", design="3/C19", technique="TLA+ model of condition latches and the stop formula (Stopping.tla) checked by TLC over all value trajectories; Stopping_Trace.tla validates real runs and TTPCalculator sweeps via a spy condition that snapshots every condition after every test",
              text="LatchMonotone, StopsAtFirst, LatchIsHistory, TimeInsideStep and ResetClears are checked on every trajectory of a 5-point lattice for or/and mixes of 1-3 conditions; real PrecipitateModel runs with the six condition classes (thresholds early/late/never/already met) and TTP sweeps are accepted only if the objects' latches, reported times and the stop decision agree with the specification's own latches computed from the recorded histories.",
              note="conditions installed before the run; scripted thermodynamics; times compared with rtol 1e-9"),
+ "C11": dict(cat="model_checking", design="3/C11", technique="paired executions judged by a TLA+ acceptor (Equiv.tla): the same PrecipitateModel configuration with phases listed in two orders (and thermodynamic queries / diffusion runs with solutes in two orders), compared item by item after un-permuting",
+             text="Every history, the time grid and the final size distributions of 2- and 3-phase runs (each step-size limit made binding in turn, both iterators, two solve calls) must be equal after un-permuting the phase axis; Equiv.tla accepts a pair only if every comparison is eq.",
+             note="scripted thermodynamics for the phase-order part; rtol 1e-9 because sums over phases are re-associated"),
 }
 
 NOT_APPLICABLE = {
